@@ -330,6 +330,10 @@ def install_hooks() -> None:
 
     def _filter_error(self: Any, file: str, info: Any) -> bool:
         res = orig_filter(self, file, info)
+        if res and _REC.get("on") and self is _REC.get("errors_obj") and not (
+                getattr(self, "_v_cur", None) is info and self._v_stage == 0):
+            # a watcher swallowed an info *after* the decision tree admitted it (or a derived note): below the model
+            _REC["flags"].append("watcher-swallowed-after-entry")
         if getattr(self, "_v_cur", None) is info and self._v_stage == 0:
             self._v_stage = 1
             if not res and _REC.get("on") and self is _REC.get("errors_obj"):
@@ -383,6 +387,7 @@ class RunResult:
         self.blocked = False
         self.crash: str | None = None
         self.options_error: str | None = None
+        self.flags: list[str] = []
 
 
 def run_mypy(case: Case, main_text: str, extra_flags: list[str], workdir: str) -> RunResult:
@@ -415,7 +420,7 @@ def run_mypy(case: Case, main_text: str, extra_flags: list[str], workdir: str) -
     options.error_summary = False
     options.many_errors_threshold = -1   # A-small-errors
     _REC.clear()
-    _REC.update(on=True, events=res.events, out=res.out, order=res.order)
+    _REC.update(on=True, events=res.events, out=res.out, order=res.order, flags=res.flags)
     try:
         r = build.build([BuildSource("main", "__main__", main_text)], options, alt_lib_path="tmp")
         res.messages = list(r.errors)
@@ -459,6 +464,8 @@ class Abstractor:
         warn: dict[str, bool] = {}
         ev: list[dict[str, Any]] = []
         index_of: dict[int, int] = {}
+        if res.flags:
+            raise Skip(res.flags[0])
 
         def check_snapshot(f: str) -> None:
             cur = (json.dumps(ign.get(f), sort_keys=True), sorted(skipped.get(f, ())))
@@ -654,6 +661,7 @@ EvalVariant(b, v) ==
       exact |-> CASE v.kind = "ignore" -> ExactIgnore(b.cfg, v.cfg, v.f, v.l, b.ev)
                   [] v.kind = "disable" -> ExactDisable(b.cfg, v.cfg, v.code, b.ev)
                   [] OTHER -> TRUE,
+      newErr |-> IF v.kind = "enable" THEN NewErrors(v.cfg, b.cfg, evv) ELSE NewErrors(b.cfg, v.cfg, b.ev),
       iff |-> UnusedIff(v.cfg, evv) /\ NoCodeIff(v.cfg, evv) /\ ExitTruth(v.cfg, evv)]
 Eval(c) == LET B == Run(c.cfg, c.ev) IN
   [out |-> FileOut(B), exit |-> Exit(B), iff |-> UnusedIff(c.cfg, c.ev) /\ NoCodeIff(c.cfg, c.ev) /\ ExitTruth(c.cfg, c.ev),
@@ -684,6 +692,7 @@ CONSTANTS
   DisabledLeavesUnused = TRUE
   SubCodesMatch = TRUE
   BlockersBypass = TRUE
+  AssumeNoCrossCodeDups = TRUE
 """
 
 
@@ -1022,6 +1031,15 @@ def process_cases(args: tuple[list[Case], int, str, dict[str, Any]]) -> dict[str
             if bad:
                 problems.append(dict(rep, **{"class": "meta", "sig": meta_signature(ab, b, a, v),
                                              "what": "predicted from the other run's reports under this configuration: " + bad}))
+            if vr["newErr"]:
+                # output-level exactness: an error line is printed that the other run did not print
+                other = a["out"] if v.eval_kind == "enable" else b["out"]
+                twins = all(any(x["line"] == o["o"]["line"] and x["sev"] == "error" and norm_msg(x["msg"]) == norm_msg(o["o"]["msg"])
+                                and x["code"] != o["o"]["code"] for x in other.get(o["f"], [])) for o in vr["newErr"])
+                problems.append(dict(rep, **{"class": "out-exact",
+                                             "sig": "out:suppressed-error-resurfaces-under-other-code" if twins else None,
+                                             "what": "error lines printed only after the edit: %r" % [
+                                                 (names[o["f"]], o["o"]["line"], o["o"]["code"], norm_msg(o["o"]["msg"])) for o in vr["newErr"]]}))
             if v.eval_kind in ("ignore", "disable", "enable"):
                 stats["exact_evals"] += 1
                 if not vr["exact"]:
@@ -1051,7 +1069,7 @@ def canon_out(out: dict[int, Any], nfiles: int) -> Any:
 # Small programs for the constructs the property statement names (multi-line statements, notes, decorators, imports,
 # deferred / duplicate errors, sub-codes, blockers).  They are always run, with every placement, in both tiers: the
 # seed never decides whether they are explored.
-GENERATED: list[tuple[str, list[str], str]] = [
+GENERATED: list[Any] = [
     ("name-suggestion", [], "my_variable = 1\nx = my_variabel\ny: int = ''\n"),
     ("import-suggestion", [], "import colections\nimport nonexistent_mod_a\nimport nonexistent_mod_b\n"),
     ("multiline-call", [], "def f(x: int, y: int) -> int: ...\nf(1,\n  'b')\nf('a',\n  2)\nf(\n  'a',\n  'b',\n)\n"),
@@ -1068,15 +1086,18 @@ GENERATED: list[tuple[str, list[str], str]] = [
     ("unreachable-skipped", ["--warn-unused-ignores"], "import sys\nif sys.version_info < (3, 0):\n    x: int = ''  # type: ignore\ny: int = ''\n"),
     ("existing-ignores", ["--warn-unused-ignores"], "def f(x: int) -> int: ...\nf('a')  # type: ignore[arg-type]\nf('b')  # type: ignore[call-arg]\nf(1)  # type: ignore\nf('c')\n"),
     ("untyped-note", ["--check-untyped-defs"], "def f():\n    x: int = ''\n    return undefined_thing\n"),
+    ("same-text-two-codes", [], "import functools\nfrom typing import Callable, Union\nfn3: Union[Callable[[int], int], str]\n"
+                                "functools.partial(fn3, 2)()\n", "tuple.pyi"),
 ]
 
 
 def generated_cases(repo: str) -> list[Case]:
     unit = os.path.join(repo, "test-data", "unit")
-    with open(os.path.join(unit, "fixtures", "dict.pyi"), encoding="utf8") as f:
-        fx = f.read()
     cases = []
-    for name, flags, src in GENERATED:
+    for g in GENERATED:
+        name, flags, src = g[:3]
+        with open(os.path.join(unit, "fixtures", g[3] if len(g) > 3 else "dict.pyi"), encoding="utf8") as f:
+            fx = f.read()
         c = Case(name, os.path.join(unit, "check-generated.test"), src, [("builtins.pyi", fx)], flags)
         c.key = "generated::" + name
         cases.append(c)
@@ -1159,7 +1180,7 @@ def run_main_inprocess(args: list[str]) -> tuple[RunResult, int, str, str]:
     res = RunResult()
     out, err = io.StringIO(), io.StringIO()
     _REC.clear()
-    _REC.update(on=True, events=res.events, out=res.out, order=res.order)
+    _REC.update(on=True, events=res.events, out=res.out, order=res.order, flags=res.flags)
     code = 0
     try:
         mypy_main.main(args=args, stdout=out, stderr=err, clean_exit=True)
@@ -1302,11 +1323,58 @@ def merge_stats(into: dict[str, Any], st: dict[str, Any]) -> None:
             into[k] = into.get(k, 0) + val
 
 
+def run_replay_file(path: str) -> int:
+    """bin/vcheck C13 --replay <file>: re-run one recorded disagreement; exit 1 when it shows again."""
+    with open(path) as f:
+        rec = json.load(f)
+    rp = rec["replay"]
+    tables = real_code_tables()
+    kind = rp.get("kind")
+    if kind == "replay":
+        bad = replay_history(rp["history"])
+        print("replay into Errors:", bad or "agrees with the specification")
+        return 1 if bad else 0
+    if kind == "corpus":
+        cases = {c.key: c for c in load_corpus(REPO) + generated_cases(REPO)}
+        gen = rp["case"].startswith("generated::")
+        r = process_cases(([cases[rp["case"]]], 0 if gen else rp.get("seed", 0), "thorough" if gen else rp.get("tier", "quick"), tables))
+        hits = [q for q in r["problems"] if q["variant"] == rp["variant"]]
+        for q in hits:
+            print("%s %s [%s]: %s" % (q["class"], q["case"], q["variant"], q["what"]))
+            print("  base output:   ", q.get("base_messages"))
+            print("  variant output:", q.get("variant_messages"))
+        if not hits:
+            print("no disagreement for", rp["case"], rp["variant"])
+        return 1 if hits else 0
+    if kind == "cli":
+        cache_dir = os.path.join(scratch("c13-cache-"), "cache")
+        warm_cache(cache_dir)
+        flags = [a for a in rp["argv"] if a not in ("--no-site-packages", "--show-traceback")]
+        flags = [a for i, a in enumerate(flags[:-1]) if a != "--cache-dir" and (i == 0 or flags[i - 1] != "--cache-dir")]
+        r = cli_batch(([(rp["key"], flags, rp["files"])], cache_dir, tables, True))
+        for q in r["problems"]:
+            print("%s %s: %s" % (q["class"], q["key"], q["what"]))
+        return 1 if r["problems"] else 0
+    if "trace" in rp:
+        print(rp["trace"])
+        return 1
+    raise MachineryError("unknown replay record kind %r" % kind)
+
+
 def main(argv: list[str]) -> int:
     tier, seed, replay = parse_args(argv)
+    if replay:
+        return run_replay_file(replay)
     v = Verdict(PID, tier, seed)
     rnd = random.Random(seed)
     ctx = get_context("fork")
+    t_phase = time.time()
+
+    def phase(name: str) -> None:
+        nonlocal t_phase
+        print("[c13] %-34s %6.1fs" % (name, time.time() - t_phase), flush=True)
+        t_phase = time.time()
+
     sany(os.path.join(SPEC, "MC_Errors.tla"))
     tables = real_code_tables()
     check_model_tables(tables)
@@ -1340,6 +1408,7 @@ def main(argv: list[str]) -> int:
         if r.coverage and r.never_fired():
             raise MachineryError("actions never fired in %s: %s" % (c, r.never_fired()))
 
+    phase("TLC: properties, emission, mutants")
     # ---- 2. (a) replay of every emitted behaviour into a real Errors object
     replayed = 0
     kinds_seen: dict[str, int] = {}
@@ -1377,12 +1446,14 @@ def main(argv: list[str]) -> int:
         if len(seen_keys) <= 5:
             v.violation(k, {"kind": "replay", "history": h}, "real Errors object disagrees with the specification: " + bad)
 
+    phase("replay into mypy.errors.Errors")
     # ---- 3. (b)+(c) corpus: recorded real runs validated by TLC; metamorphic placements
     corpus = load_corpus(REPO)
     gen_cases = generated_cases(REPO)
     if len(corpus) < 3000:
         raise MachineryError("corpus loader found only %d cases" % len(corpus))
-    always = {"check-errorcodes.test::testErrorCodeUndefinedNameSuggestion", "check-errorcodes.test::testErrorCodeUndefinedNameSuggestionLocal"}
+    always = {"check-errorcodes.test::testErrorCodeUndefinedNameSuggestion", "check-errorcodes.test::testErrorCodeUndefinedNameSuggestionLocal",
+              "check-functools.test::testFunctoolsPartialUnion"}
     if tier == "quick":
         pool_cases = [c for c in corpus if c.key not in always]
         chosen = [c for c in corpus if c.key in always] + rnd.sample(pool_cases, 150)
@@ -1418,6 +1489,7 @@ def main(argv: list[str]) -> int:
         for r in r_cli:
             merge_stats(cli_stats, r["stats"])
             cli_problems += r["problems"]
+    phase("corpus + command line")
     if not stats.get("traces") or not stats.get("metamorphic"):
         raise MachineryError("no recorded run was validated: conformance did not run")
     if not cli_stats.get("cli_inprocess") or not cli_stats.get("cli_subprocess"):
@@ -1429,13 +1501,29 @@ def main(argv: list[str]) -> int:
         if not stats.get("kinds", {}).get(need):
             raise MachineryError("no %s variant was explored" % need)
 
+    by_key = {c.key: c for c in corpus + gen_cases}
+    confirmed: dict[str, bool] = {}
     for pr in problems:
         cls = pr["class"]
         key = pr.get("sig") or "%s:%s:%s" % (cls, pr["case"], pr["variant"])
-        v.violation(key, dict(pr, kind="corpus"), "%s %s [%s] flags %s: %s" % (cls, pr["case"], pr["variant"], pr["extras"], pr["what"]))
+        if key in v.known or len(v.violations) >= 25:
+            v.violation(key, None) if key in v.known else None
+            continue
+        # DESIGN 4.1: reproduce once more before printing
+        ck = pr["case"]
+        if ck not in confirmed:
+            gen = ck.startswith("generated::")
+            again = process_cases(([by_key[ck]], 0 if gen else seed, "thorough" if gen else tier, tables))
+            confirmed[ck] = any(q["class"] == cls and q["variant"] == pr["variant"] for q in again["problems"])
+            os.chdir(VERIF)
+        if not confirmed[ck]:
+            v.notes.append("not reproduced on re-run (dropped): %s" % key)
+            continue
+        v.violation(key, dict(pr, kind="corpus", seed=seed, tier=tier),
+                    "%s %s [%s] flags %s: %s" % (cls, pr["case"], pr["variant"], pr["extras"], pr["what"]))
     for pr in cli_problems:
         key = pr.get("sig") or "%s:%s" % ("cli-" + pr["class"], pr["key"])
-        v.violation(key, pr, "%s %s: %s" % (pr["class"], pr["key"], pr["what"]))
+        v.violation(key, dict(pr, kind="cli"), "%s %s: %s" % (pr["class"], pr["key"], pr["what"]))
 
     n_traces = stats["traces"] + sum(cli_stats.get("exit_seen", {}).values())
     coverage = {
